@@ -45,7 +45,7 @@ def both_all(sg, build_ops, fused, composed, tol):
     return None
 
 
-def both(sg, build_ops, fused, composed, tol, rg=None):
+def both(sg, build_ops, fused, composed, tol, rg=None, gmode="exact"):
     """runs both forms on fresh copies of the same operands; returns message or None"""
     res = []
     for fn in (fused, composed):
@@ -85,7 +85,10 @@ def both(sg, build_ops, fused, composed, tol, rg=None):
             return "operand %d: gradient present in one form only" % k
         if a is not None:
             sc = max(1.0, float(np.max(np.abs(b))) if b.size else 1.0)
-            if a.shape != b.shape or not np.allclose(a, b, rtol=tol, atol=tol * sc):
+            if gmode == "mass":
+                if a.shape != b.shape or abs(float(a.sum()) - float(b.sum())) > 1e-6 * max(1.0, float(np.abs(b).sum())):
+                    return "operand %d: total gradient mass differs (ties in the windows): fused %s (sum %r), composed %s (sum %r)" % (k, a.tolist(), float(a.sum()), b.tolist(), float(b.sum()))
+            elif a.shape != b.shape or not np.allclose(a, b, rtol=tol, atol=tol * sc):
                 return "operand %d gradients differ: fused %s, composed %s" % (k, a.tolist(), b.tolist())
     return None
 
@@ -170,7 +173,7 @@ def nn_pair(sg, case):
     if op == "log_softmax":
         d = a["dim"]
         return (lambda: [sg.Tensor(X[0].copy(), requires_grad=True)]), (lambda x: F.log_softmax(x, d)), (lambda x: F.softmax(x, d).log()), 1e-7
-    if op in ("maxpool2d", "avgpool2d") and case["pat"] == "A":
+    if op in ("maxpool2d", "avgpool2d"):
         g = a["g"]
         kw = dict(stride=tuple(g["s"]), padding=tuple(g["p"]), dilation=tuple(g["d"]))
         xs = case["shapes"][0]
@@ -183,7 +186,10 @@ def nn_pair(sg, case):
             r = w.max(2) if op == "maxpool2d" else w.mean(2)
             return r.reshape(tuple(case["oshape"]))
         fused = (lambda x: F.max_pool2d(x, tuple(g["k"]), **kw)) if op == "maxpool2d" else (lambda x: F.avg_pool2d(x, tuple(g["k"]), **kw))
-        return (lambda: [sg.Tensor(X[0].copy(), requires_grad=True)]), fused, composed, 1e-9
+        # pattern T has ties inside the windows: the two forms may choose different (valid) sub-gradients, so there the
+        # values must coincide and the gradients must carry the same total mass (each output's upstream gradient is
+        # distributed over its window, never duplicated or dropped)
+        return (lambda: [sg.Tensor(X[0].copy(), requires_grad=True)]), fused, composed, 1e-9, ("mass" if case["pat"] != "A" and op == "maxpool2d" else "exact")
     return None
 
 
@@ -252,8 +258,8 @@ def run(ctx):
             if m:
                 rep.violation("replay", m)
         else:
-            b, f, c2, tol = nn_pair(sg, rp["case"])
-            m = both(sg, b, f, c2, tol)
+            built = nn_pair(sg, rp["case"])
+            m = both(sg, built[0], built[1], built[2], built[3], gmode=(built[4] if len(built) > 4 else "exact"))
             if m:
                 rep.violation("replay", m)
         for k, (m, r, c) in rep.violations.items():
@@ -295,7 +301,7 @@ def run(ctx):
             continue
         rep.case("pair:%s|%s|%s" % (case["op"], json.dumps(case["a"], sort_keys=True), case["shapes"]))
         rep.traces += 1
-        m = both(sg, built[0], built[1], built[2], built[3])
+        m = both(sg, built[0], built[1], built[2], built[3], gmode=(built[4] if len(built) > 4 else "exact"))
         if m:
             rep.violation("pair:%s" % case["op"], "%s %s on %s: %s" % (case["op"], case["a"], case["shapes"], m),
                           dict(case={k: v for k, v in case.items() if not k.startswith("_")}))
